@@ -26,6 +26,9 @@ type Params struct {
 	MaxDepth   int
 	Unkeyed    bool // populate unkeyed lists
 	StateToo   bool // populate config false leaves as well
+	// NoNestedOrdered leaves ordered lists inside ordered-list entries empty: ygot
+	// documents nested `ordered-by user` lists as unsupported by its gNMI renderer.
+	NoNestedOrdered bool
 }
 
 // DefaultParams is a mid-size tree.
@@ -47,6 +50,7 @@ func SwarmParams(r *simrt.Rng) Params {
 type G struct {
 	R *simrt.Rng
 	P Params
+	inOrdered int
 	// small value pools so that histories revisit the same keys and values
 	Strs []string
 }
@@ -219,7 +223,7 @@ func (g *G) intVal(t *yang.YangType, bits int, signed bool) (int64, uint64, bool
 		if !signed && c < 0 {
 			continue
 		}
-		if signed {
+		if signed && bits < 64 {
 			lim := int64(1) << (bits - 1)
 			if c >= lim || c < -lim {
 				continue
@@ -559,6 +563,9 @@ func (g *G) fillField(s reflect.Value, i int, sch *yang.Entry, depth int, force 
 		if depth >= g.P.MaxDepth || (!force && !g.chance(g.P.PList)) {
 			return
 		}
+		if g.P.NoNestedOrdered && g.inOrdered > 0 {
+			return
+		}
 		om := reflect.New(sf.Type.Elem())
 		st := model.OrderedInternals(om)
 		if !st.OK {
@@ -611,6 +618,7 @@ func (g *G) NewEntry(et reflect.Type, keyType reflect.Type, listSch *yang.Entry,
 		return e, reflect.Value{}, false
 	}
 	g.Fill(e.Elem(), listSch, depth+1)
+	MirrorKeys(e.Elem(), names)
 	return e, k, true
 }
 
@@ -692,7 +700,9 @@ func (g *G) AddOrderedEntry(om reflect.Value, listSch *yang.Entry, depth int) bo
 		st.ValueMap.Set(reflect.MakeMap(st.ValueMap.Type()))
 	}
 	mt := st.ValueMap.Type()
+	g.inOrdered++
 	e, k, ok := g.NewEntry(mt.Elem().Elem(), mt.Key(), listSch, depth)
+	g.inOrdered--
 	if !ok {
 		return false
 	}
@@ -804,7 +814,7 @@ func (g *G) Mutate(s reflect.Value, sch *yang.Entry, depth int, ep EditParams) i
 			}
 		case model.FOrderedList:
 			if f.IsNil() {
-				if g.chance(ep.PAdd) {
+				if g.chance(ep.PAdd) && !(g.P.NoNestedOrdered && g.inOrdered > 0) {
 					g.fillField(s, i, sch, depth, true)
 					edits++
 				}
@@ -825,7 +835,9 @@ func (g *G) Mutate(s reflect.Value, sch *yang.Entry, depth int, ep EditParams) i
 					continue
 				}
 				kept = reflect.Append(kept, k)
+				g.inOrdered++
 				edits += g.Mutate(st.ValueMap.MapIndex(k).Elem(), csch, depth+1, ep)
+				g.inOrdered--
 			}
 			st.Keys.Set(kept)
 			if g.chance(ep.PAdd * 2) {
@@ -871,4 +883,40 @@ func (g *G) Mutate(s reflect.Value, sch *yang.Entry, depth int, ep EditParams) i
 // Describe is a short human-readable summary used in evidence samples.
 func Describe(m *model.Model) string {
 	return fmt.Sprintf("%d leaves, %d containers, %d lists", len(m.Leaves), len(m.Containers), len(m.ListKeys))
+}
+
+// MirrorKeys makes an uncompressed OpenConfig-style list entry self-consistent: the key
+// leaves of such an entry are leafrefs to same-named leaves in its config container, so
+// if that container exists its leaves are set to the key values.
+func MirrorKeys(entry reflect.Value, names []string) {
+	t := entry.Type()
+	for i := 0; i < t.NumField(); i++ {
+		sf := t.Field(i)
+		if model.Classify(sf) != model.FContainer || sf.Tag.Get("path") != "config" {
+			continue
+		}
+		c := entry.Field(i)
+		if c.IsNil() {
+			continue
+		}
+		ct := sf.Type.Elem()
+		for _, n := range names {
+			ki, ok := model.KeyField(t, n)
+			if !ok {
+				continue
+			}
+			for j := 0; j < ct.NumField(); j++ {
+				if ct.Field(j).Tag.Get("path") == n && ct.Field(j).Type == t.Field(ki).Type {
+					kv := entry.Field(ki)
+					if kv.Kind() == reflect.Ptr && !kv.IsNil() {
+						nv := reflect.New(kv.Type().Elem())
+						nv.Elem().Set(kv.Elem())
+						c.Elem().Field(j).Set(nv)
+					} else {
+						c.Elem().Field(j).Set(kv)
+					}
+				}
+			}
+		}
+	}
 }
